@@ -48,6 +48,29 @@ def load_in_eval(model, payload):
             except BaseException as e:
                 r = "<%s: %s>" % (type(e).__name__, str(e)[:80])
             out.append(r)
+        # read before produce on a populated store: must be refused, never served the previous content
+        src2 = (
+            "import dds\nV = 1\n"
+            "def producer():\n    return 'P%d' % V\n"
+            "def only_producer():\n    return dds.keep('/c09b/prod', producer)\n"
+            "def root():\n    y = 'read:' + dds.load('/c09b/prod')\n    x = dds.keep('/c09b/prod', producer)\n    return y\n"
+        )
+        with open(os.path.join(d, "c09_replay_mod2.py"), "w") as f:
+            f.write(src2)
+        m2 = importlib.import_module("c09_replay_mod2")
+        dds.accept_module(m2)
+        dds.set_store("memory")
+        dds.eval(m2.only_producer)
+        m2.V = 2
+        from dds.structures import DDSException
+        try:
+            r = dds.eval(m2.root)
+        except DDSException:
+            r = "DDSError"
+        except BaseException as e:
+            r = "<%s>" % type(e).__name__
+        if r != "DDSError":
+            return {"reproduced": True, "detail": "populated store, producer edited, the evaluation reads /c09b/prod before producing it: got %r instead of a DDS error" % (r,), "inputs": {"history": "keep producer (V=1); V=2; eval root (load before keep)"}}
         if out != ["read:P1", "read:P2"]:
             return {"reproduced": True, "detail": "evaluate with V=1 then V=2 (reader loads the path the evaluation keeps): results %r, expected ['read:P1', 'read:P2']" % (out,), "inputs": {"history": "V=1; V=2"}}
         return {"reproduced": False, "detail": "in-evaluation load serves the value kept by the evaluation"}
